@@ -417,6 +417,7 @@ class TimeFixedGFormula:
                                                 weights=g.loc[self.gf[self.exposure] == 0, self._weights]))
 
         self.marginal_outcome = np.mean(marginals)
+        self.predicted_df = None  # predictions of an earlier fit() do not belong to this plan
 
     def run_diagnostics(self, decimal=3):
         """Runs diagnostics for the g-formula regression model used. Diagnostics include summary statistics and a
